@@ -904,3 +904,31 @@ func (h *H) poisonComps() {
 		}
 	}
 }
+
+// rejectedQueries issues query creations that the implementation must reject while converting their
+// arguments; nothing is logged — a correct implementation shows no trace (the lock state in particular)
+func (h *H) rejectedQueries() {
+	uf := ecs.NewUnsafeFilter(h.w)
+	_ = try(func() { q := uf.Query(ecs.RelIdx(0, ecs.Entity{})); q.Close() })
+	for _, id := range h.sortedCompIDs() {
+		rc := h.compByID[id]
+		if rc.info.kind != "rel" {
+			// a relation target for a component that is not a relation component, through a typed filter
+			_ = try(func() { q := ecs.NewFilter0(h.w).Query(ecs.RelID(rc.id, ecs.Entity{})); q.Close() })
+			break
+		}
+	}
+}
+
+func (h *H) sortedCompIDs() []uint8 {
+	var ids []int
+	for id := range h.compByID {
+		ids = append(ids, int(id))
+	}
+	sort.Ints(ids)
+	out := make([]uint8, len(ids))
+	for i, v := range ids {
+		out[i] = uint8(v)
+	}
+	return out
+}
